@@ -734,8 +734,11 @@ func (c1 float64Const) representedBy(typ reflect.Type) (constant, error) {
 		}
 		return nil, fmt.Errorf("constant %s truncated to integer", c1)
 	case reflect.Uint, reflect.Uint8, reflect.Uint16, reflect.Uint32, reflect.Uint64, reflect.Uintptr:
-		if 0 <= f && f <= 1<<64-1025 && float64(int64(f)) == f {
-			return int64Const(f).representedBy(typ)
+		if 0 <= f && f <= 1<<64-1025 && float64(uint64(f)) == f {
+			if f < 1<<63 {
+				return int64Const(f).representedBy(typ)
+			}
+			return newIntConst(0).setUint64(uint64(f)).representedBy(typ)
 		}
 		return nil, fmt.Errorf("constant %s truncated to integer", c1)
 	case reflect.Float32, reflect.Complex64:
@@ -872,13 +875,21 @@ func (c1 floatConst) representedBy(typ reflect.Type) (constant, error) {
 		return nil, fmt.Errorf("constant %s truncated to integer", c1)
 	}
 	if reflect.Uint <= kind && kind <= reflect.Uintptr {
-		if n, acc := c1.f.Uint64(); acc == big.Exact {
+		// Uint64 also returns big.Exact for truncated values with a short mantissa.
+		if n, acc := c1.f.Uint64(); acc == big.Exact && c1.f.IsInt() {
 			if n <= maxInt64 {
 				return int64Const(n).representedBy(typ)
 			}
 			return newIntConst(0).setUint64(n).representedBy(typ)
 		}
 		return nil, fmt.Errorf("constant %s truncated to integer", c1)
+	}
+	if kind == reflect.Float32 || kind == reflect.Complex64 {
+		// Round directly to float32, avoiding a double rounding.
+		if f, _ := c1.f.Float32(); !math.IsInf(float64(f), 0) {
+			return float64Const(f), nil
+		}
+		return nil, fmt.Errorf("constant %s overflows %s", c1, typ)
 	}
 	if f, _ := c1.f.Float64(); !math.IsInf(f, 0) {
 		return float64Const(f).representedBy(typ)
@@ -996,8 +1007,24 @@ func (c1 ratConst) representedBy(typ reflect.Type) (constant, error) {
 	if c1.r.IsInt() {
 		return intConst{i: c1.r.Num()}.representedBy(typ)
 	}
+	if k := typ.Kind(); reflect.Int <= k && k <= reflect.Uintptr {
+		return nil, fmt.Errorf("constant %s truncated to integer", c1)
+	}
 	if f, ok := c1.r.Float64(); ok {
 		return float64Const(f).representedBy(typ)
+	}
+	if k := typ.Kind(); k == reflect.Float32 || k == reflect.Complex64 {
+		// Round directly to float32, avoiding a double rounding.
+		if f, _ := c1.r.Float32(); !math.IsInf(float64(f), 0) {
+			return float64Const(f), nil
+		}
+		return nil, fmt.Errorf("constant %s overflows %s", c1, typ)
+	}
+	if k := typ.Kind(); k == reflect.Float64 || k == reflect.Complex128 {
+		if f, _ := c1.r.Float64(); !math.IsInf(f, 0) {
+			return float64Const(f), nil
+		}
+		return nil, fmt.Errorf("constant %s overflows %s", c1, typ)
 	}
 	return newFloatConst(0).setRat(c1.r).representedBy(typ)
 }
